@@ -49,6 +49,17 @@ DnaLaws(i, t, w, sp, f, dist, x) ==
      SeqIf(nested /\ broken, Fail(i, "encode_raises_on_filtered_placeholder_inside_selected_choice", <<x.tree, x.decoded, x.encoded>>))
      \o SeqIf(~nested /\ dist /\ x.encoded # x.tree, Fail(i, "encode_not_inverse", <<x.tree, x.encoded>>))
      \o SeqIf(~nested /\ x.redecoded # x.decoded, Fail(i, "decode_of_encode_differs", <<x.tree, x.encoded, x.redecoded>>))
+  \* encode accepts exactly the values the template describes: near misses of the decoded value (a list one item
+  \* longer / shorter, a changed constant, an object of the sibling class) are judged by Encode
+  \o LET nestedF == w # "all" /\ NestedFiltered(t, w)
+         bad == { j \in 1..Len(x.foreign) :
+                    LET e == Encode(t, w, x.foreign[j][1]) IN
+                    IF e.ok THEN x.foreign[j][2] = Bad \/ (dist /\ x.foreign[j][2] # Tree(sp, e.ds))
+                    ELSE x.foreign[j][2] # Bad }
+     IN SeqIf(~nestedF /\ bad # {},
+              Fail(i, IF Encode(t, w, x.foreign[Min(bad \cup {Len(x.foreign)})][1]).ok
+                      THEN "encode_wrong_on_value_of_template" ELSE "encode_accepts_value_outside_template",
+                   x.foreign[Min(bad \cup {Len(x.foreign)})]))
   \o SeqIf(x.materialized # x.decoded, Fail(i, "materialize_differs", <<x.tree, x.materialized>>))
   \o SeqIf(~TypedFieldsOK(x.decoded), Fail(i, "decoded_value_rejected_by_bound_spec", <<x.tree, x.decoded>>))
 
@@ -85,7 +96,9 @@ Failures(i) ==
   IN
   \* binding: a placeholder whose values the field's spec would reject must be refused when the value is built
   IF ~WellTyped(t)
-  THEN SeqIf(~o.bind_rejected, Fail(i, "bind_accepts_placeholder_exceeding_value_spec", 0))
+  THEN SeqIf(~o.bind_rejected /\ ~o.rebind_accepted, Fail(i, "bind_accepts_placeholder_exceeding_value_spec", 0))
+       \* binding is judged alike at every attempt: the same placeholder objects, refused once, are refused again
+       \o SeqIf(o.rebind_accepted, Fail(i, "rebind_accepts_placeholder_refused_before", 0))
   ELSE IF o.bind_rejected THEN Fail(i, "bind_rejects_acceptable_placeholder", 0)
   ELSE
   LET sp == TemplateSpec(t, w)
